@@ -260,7 +260,8 @@ func dominatedByTrueOf(f *ssa.Function, cond ssa.Value, b *ssa.BasicBlock) bool 
 // ---------------------------------------------------------------- RANGEUSE
 
 func ruleRangeUse(w *World, r *Report, in map[*ssa.Function]bool) {
-	r.Rule("RANGEUSE", "every caller of transform.ConvertZToMinMaxAltitudekey / ConvertAltitudekeyToMinMaxZ consumes both the minimum and the maximum of the returned range (binding one of them to _ silently drops part of the altitude range)")
+	r.Rule("RANGEUSE", "every caller of transform.ConvertZToMinMaxAltitudekey / ConvertAltitudekeyToMinMaxZ consumes both the minimum and the maximum of the returned range (binding one of them to _ silently drops part of the altitude range); sites are keyed by package and call order so that moving a call into a helper keeps its identity")
+	ord := map[string]int{}
 	for _, f := range w.ModFuncs {
 		if f.Synthetic != "" {
 			continue
@@ -269,7 +270,7 @@ func ruleRangeUse(w *World, r *Report, in map[*ssa.Function]bool) {
 		if !can && in != nil && !in[f] {
 			continue
 		}
-		ord := 0
+		pk := relPkg(pkgOf(f))
 		instrs(f, func(ins ssa.Instruction) {
 			c, ok := ins.(*ssa.Call)
 			if !ok {
@@ -278,19 +279,23 @@ func ruleRangeUse(w *World, r *Report, in map[*ssa.Function]bool) {
 			if !(calleeIs(c, modPath+"/transform", "ConvertZToMinMaxAltitudekey") || calleeIs(c, modPath+"/transform", "ConvertAltitudekeyToMinMaxZ")) {
 				return
 			}
-			ord++
-			key := fmt.Sprintf("RANGEUSE / %s / range call#%d", w.FuncName(f), ord)
+			scope := "package " + pk
+			if can {
+				scope = w.FuncName(f)
+			}
+			ord[scope]++
+			key := fmt.Sprintf("RANGEUSE / %s / range call#%d", scope, ord[scope])
 			e0, e1 := extractOf(c, 0), extractOf(c, 1)
 			u0 := e0 != nil && hasRealReferrer(e0)
 			u1 := e1 != nil && hasRealReferrer(e1)
 			if u0 && u1 {
-				r.Add(Obligation{Rule: "RANGEUSE", Key: key, Pos: w.Pos(c.Pos()), Status: Discharged, Detail: "both bounds are used", Canary: can})
+				r.Add(Obligation{Rule: "RANGEUSE", Key: key, Pos: w.Pos(c.Pos()), Status: Discharged, Detail: "both bounds are used (in " + w.FuncName(f) + ")", Canary: can})
 			} else {
 				which := "maximum"
 				if !u0 {
 					which = "minimum"
 				}
-				r.Add(Obligation{Rule: "RANGEUSE", Key: key, Pos: w.Pos(c.Pos()), Status: Violated, Detail: "the " + which + " of the returned key range is discarded (" + shortInstr(c) + ")", Canary: can})
+				r.Add(Obligation{Rule: "RANGEUSE", Key: key, Pos: w.Pos(c.Pos()), Status: Violated, Detail: "the " + which + " of the returned key range is discarded in " + w.FuncName(f) + " (" + shortInstr(c) + ")", Canary: can})
 			}
 		})
 	}
